@@ -35,6 +35,16 @@ ScopeOf(loc) ==
     IF loc = <<>> THEN EmptyScope
     ELSE [ScopeOf(Tail(loc)) EXCEPT ![Head(loc)[1]] = Head(loc)[2]]
 
+\* An attribute local may be given by an expression over the ENCLOSING scope: the value
+\* 100 + k stands for x="{{$x + k}}" - the variable of the same name further out, plus k.
+\* Resolve replaces such entries by their values in the scopes `sc` (those in force where the
+\* element stands - not the scope the element opens).
+RECURSIVE Resolve(_, _)
+Resolve(loc, sc) ==
+    IF loc = <<>> THEN <<>>
+    ELSE LET x == Head(loc)[1]  v == Head(loc)[2]
+         IN <<(IF v >= 100 THEN <<x, Lookup(sc, x) + (v - 100)>> ELSE Head(loc))>> \o Resolve(Tail(loc), sc)
+
 \* parallel assignment into the innermost scope
 RECURSIVE AssignAll(_, _, _)
 AssignAll(scope, asg, scopes) ==
@@ -148,7 +158,7 @@ EvNode(nd, st, d, C) ==
                sI == IF nd.k = "g" /\ nd.rd # "-" /\ ~st.specs
                      THEN [st EXCEPT !.items = Append(@, [id |-> nd.id, v |-> gv, x |-> 0])] ELSE st
                s0 == [sI EXCEPT !.inl = IF @ > 0 THEN -1 ELSE @]
-               s1 == IF nd.k = "g" THEN [s0 EXCEPT !.sc = Append(@, ScopeOf(nd.loc))] ELSE s0
+               s1 == IF nd.k = "g" THEN [s0 EXCEPT !.sc = Append(@, ScopeOf(Resolve(nd.loc, st.sc)))] ELSE s0
                s2 == EvKids(nd, s1, d + 1, C)
                cp == [nd EXCEPT !.ch = s2.unr, !.href = IF st.inl > 0 THEN st.inl ELSE 0,
                                 !.rd = IF st.inl # 0 /\ nd.rd # "-" /\ gv # UNDEF THEN "-" ELSE @,
@@ -180,8 +190,9 @@ EvNode(nd, st, d, C) ==
                               !.sc = st.sc, !.unr = Append(st.unr, nd)]
       [] nd.k = "reuse" ->
            IF nd.href \notin C.regs THEN [st EXCEPT !.err = "ref"]
-           ELSE LET tgt == Instance(C.flat[CHOOSE j \in 1..Len(C.flat) : C.flat[j].id = nd.href], nd)
-                    s1 == [st EXCEPT !.sc = Append(@, ScopeOf(nd.loc)), !.inl = nd.id, !.unr = <<>>]
+           ELSE LET rn == [nd EXCEPT !.loc = Resolve(@, st.sc)]      \* the reuse element's own attributes: enclosing scope
+                    tgt == Instance(C.flat[CHOOSE j \in 1..Len(C.flat) : C.flat[j].id = nd.href], rn)
+                    s1 == [st EXCEPT !.sc = Append(@, ScopeOf(rn.loc)), !.inl = nd.id, !.unr = <<>>]
                     \* the instance occupies a level of its own in the pinned code
                     \* (C.rc = 1); an implementation is free not to (C.rc = 0)
                     s2 == EvNode(tgt, s1, d + C.rc, C)
